@@ -972,14 +972,14 @@ class EnumConverter(Converter[enum.Enum]):
         if isinstance(val, self.ty):
             return None
         try:
-            val = self.inner_conv.try_convert(val)
+            conv_val = self.inner_conv.try_convert(val)
         except ParseInterrupt:
             return self.inner_conv.collect_errors(val)
         try:
-            self.val_map[val]
+            self.val_map[conv_val]
             return None
         except (KeyError, TypeError):  # not a member (or not even hashable)
-            return WrongTypeError(self.expected(), val)
+            return WrongTypeError(self.expected(), val)  # report the value we were given
 
 
 @dataclasses.dataclass
